@@ -8,7 +8,10 @@ Model of `bpp::AbstractDiscreteDistribution`
 
  * the tolerance-ordered `std::map<double,double,Order>` (h:35-69, h:80) as an association list
    kept in iteration order (`TMap`);
- * `discretizeEqualProportions`, `insertClass_`, `discretizeEqualIntervals` (cpp:310-560),
+ * `discretizeEqualProportions` (cpp:341-489), `insertClass_` (495-513), `discretizeEqualIntervals` (517-557),
+   (line numbers of the tree at fix-C09 after the audit-round-1 repairs; the `cpp:` references further down
+   in this file still carry the numbers of the snapshot: look-ups now 299-330, cumulative queries 225-285,
+   discretize 561-590, restrictToConstraint 606-623)
    `discretize` (cpp:494-523), `getBounds`/`getBound` (cpp:527-537, h:141-146),
    `getValueCategory` / `getCategoryIndex` (cpp:259-290), the four cumulative class queries
    (cpp:185-245), `restrictToConstraint` (cpp:539-556), `setNumberOfCategories` (cpp:66-76),
@@ -402,6 +405,11 @@ def probsSumOne (tol : α) (s : DD α) : Bool := Scalar.leb (Scalar.abs (sumL s.
 
 /-- clause bounds_monotone_in_domain: `lower ≤ b₁ ≤ … ≤ b_{n-1} ≤ upper` -/
 def boundsMonoInDom (s : DD α) : Bool := nondecr s.allBounds
+
+/-- clause bounds_in_domain: the domain is ordered and every interior bound lies in it — holds
+for every parent (the quantiles are clamped into the domain), judged unconditionally by the driver -/
+def boundsInDom (s : DD α) : Bool :=
+  Scalar.leb s.dom.lo s.dom.hi && s.bounds.all (fun b => Scalar.leb s.dom.lo b && Scalar.leb b s.dom.hi)
 
 /-- clause values_strict_mono -/
 def valuesStrictMono (s : DD α) : Bool := strictIncr s.cats
